@@ -409,6 +409,16 @@ class Interp:
                     t = d.truth(r.value)
                     out.append(val({"T": FALSE, "F": TRUE}.get(t, ("bool",)), r.state))
             return out
+        if isinstance(e, ast.UnaryOp) and isinstance(e.op, (ast.USub, ast.UAdd)):
+            out = []
+            for r in self.eval(e.operand, st, fr):
+                if r.kind == "exc":
+                    out.append(r)
+                elif isinstance(r.value, tuple) and len(r.value) == 2 and r.value[0] == "const" and isinstance(r.value[1], (int, float)) and not isinstance(r.value[1], bool):
+                    out.append(val(("const", -r.value[1] if isinstance(e.op, ast.USub) else r.value[1]), r.state))
+                else:
+                    out.append(val(TOP, r.state))
+            return out
         if isinstance(e, ast.BoolOp):
             return self._boolop(e, st, fr)
         if isinstance(e, ast.Compare):
@@ -557,7 +567,7 @@ class Interp:
         f = call.func
         if isinstance(f, ast.Attribute) and f.attr == "pop" and len(call.args) <= 1 and not call.keywords:
             # x.pop() / x.pop(0) on an exact list
-            key = self._key_of(f.value, fr)
+            key = self._key_of(f.value, fr, st)
             cur = st.get(key, None) if key is not None else None
             if not (isinstance(cur, tuple) and cur[:1] == ("tuple",)):
                 return None
@@ -569,7 +579,7 @@ class Interp:
             return [val(cur[1] if first else cur[-1], st.set(key, ("tuple",) + (cur[2:] if first else cur[1:-1])))]
         if not (isinstance(f, ast.Attribute) and f.attr in ("append", "extend") and len(call.args) == 1 and not call.keywords):
             return None
-        key = self._key_of(f.value, fr)   # a local, or an attribute of self kept in the state
+        key = self._key_of(f.value, fr, st)   # a local, or an attribute of self kept in the state
         if key is None or not st.has(key):
             return None
         cur = st.get(key)
@@ -864,7 +874,12 @@ class Interp:
                     out.append((False, s2))
         return out
 
-    def _key_of(self, e, fr):
+    def _key_of(self, e, fr, st=None):
+        hook = getattr(self.domain, "key_of", None) if st is not None else None
+        if hook is not None:
+            got = hook(self, e, st, fr)
+            if got is not None:
+                return got
         if isinstance(e, ast.Name):
             return fr.local(e.id)
         ch = attr_chain(e)
@@ -877,7 +892,7 @@ class Interp:
         d = self.domain
         if isinstance(test, ast.UnaryOp) and isinstance(test.op, ast.Not):
             return self.refine(test.operand, st, fr, not truth)
-        key = self._key_of(test, fr)
+        key = self._key_of(test, fr, st)
         if key is not None and st.has(key):
             v = st.get(key)
             t = d.truth(v)
@@ -895,7 +910,7 @@ class Interp:
             op = test.ops[0]
             l, r = test.left, test.comparators[0]
             if isinstance(op, (ast.Is, ast.IsNot)) and isinstance(r, ast.Constant) and r.value is None:
-                key = self._key_of(l, fr)
+                key = self._key_of(l, fr, st)
                 if key is not None and st.has(key):
                     v = st.get(key)
                     want_none = truth == isinstance(op, ast.Is)
